@@ -1,4 +1,6 @@
 import Csproto.Proofs.GenDec
+import Csproto.Proofs.GenRecords
+import Csproto.Proofs.GenRoundtrip
 import Csproto.Bridge.Templates
 /-
   C06 — Generated Unmarshal agrees with the reference on every valid encoding.
@@ -57,5 +59,61 @@ def inB9 : Bytes := [0x0a, 0x02, 0x08, 0x05, 0x0a, 0x02, 0x10, 0x07]
 
 theorem last_wins_witness :
     unmarshal sB9 false (sB9.md 0) inB9 = .ok ([.one (.msg [.one (.num 0), .one (.num 7)] [])], []) := by rfl
+
+/-! ### Part 2: agreement with the reference rule on every valid encoding of scalar fields
+
+`WRec` is one record as a conforming writer emits it for a message of type `md`: an element of a scalar
+field (any kind, any presence discipline), a packed run of a repeated scalar field, or a field the type
+does not define.  `WRec.apply` is the reference rule for one record — a singular field keeps its LAST
+occurrence, a repeated field APPENDS (a packed run appends all its elements), an undefined field is
+RETAINED as its raw bytes.  The theorem quantifies over every sequence of such records: any order,
+packed / unpacked / split repeated fields, singular fields occurring more than once, unknown fields
+anywhere, either decoder mode.  (Message-typed fields and maps are outside `WRec`: there the statement
+is decided by correspondence and oracle, and is false for repeated singular messages — B9.) -/
+
+/-- **generated `Unmarshal` = the fold of the reference rule**, then the required-field check -/
+theorem unmarshal_is_reference_fold (S : Schema) (fast : Bool) (md : MD) (rs : List WRec) (hok : ∀ r ∈ rs, r.OK md) :
+    unmarshal S fast md (wiresW rs) =
+      (if requiredMissing md (rs.foldl (WRec.apply md) (initFields md, [])).1 then .err
+       else .ok (rs.foldl (WRec.apply md) (initFields md, []))) :=
+  unmarshal_records S fast md rs hok
+
+/-- the same at any point of the loop: from any decoder position, field state and retained bytes -/
+theorem loop_is_reference_fold (S : Schema) (fast : Bool) (md : MD) (rs : List WRec) (hok : ∀ r ∈ rs, r.OK md)
+    (fuel : Nat) (d : Dec) (pre : Bytes) (fs : List F) (unk : Bytes) (hf : rs.length + 1 ≤ fuel)
+    (hAt : d.At pre (wiresW rs)) (hm : d.fast = fast) :
+    unmarshalLoop S fast fuel md d fs unk = .ok (rs.foldl (WRec.apply md) (fs, unk)) :=
+  loop_records S fast md rs hok fuel d pre fs unk hf hAt hm
+
+/-- the result does not depend on the decoder mode -/
+theorem mode_independent (S : Schema) (md : MD) (rs : List WRec) (hok : ∀ r ∈ rs, r.OK md) :
+    unmarshal S true md (wiresW rs) = unmarshal S false md (wiresW rs) := by
+  rw [unmarshal_records S true md rs hok, unmarshal_records S false md rs hok]
+
+/-- **round trip**: for a message type of scalar fields, `Unmarshal(Marshal(m) ++ unknown)` is `m` with
+    identical presence (values normalised to their field width) and the unknown fields byte for byte -/
+theorem roundtrip (S : Schema) (fast : Bool) (md : MD) (fs : List F) (urs : List Rec) (ops : List EncOp)
+    (hflat : FlatMD md) (hnd : NoDupNums md) (hlen : fs.length = md.length)
+    (hv : ∀ p ∈ md.zip fs, ShapeOK p.1 p.2 ∧ ValOK p.1 p.2)
+    (hu : ∀ r ∈ urs, r.OK ∧ findField md r.tag 0 = none)
+    (ho : opsFields S md fs = .ok ops) :
+    unmarshal S fast md (Gen.wiresOf ops ++ Csproto.wiresOf urs) = .ok (canonFields md fs, Csproto.wiresOf urs) :=
+  roundtrip_flat S fast md fs urs ops hflat hnd hlen hv hu ho
+
+/-- non-vacuity: a concrete three-field type (implicit int32, optional string, packed sint64), fields out
+    of order, the packed field split in a run and a single element, an unknown field in between -/
+def mdEx : MD := [⟨1, .sc .int32, .implicit⟩, ⟨2, .sc .string, .explicit⟩, ⟨3, .sc .sint64, .packed⟩]
+def rsEx : List WRec :=
+  [.packed 2 ⟨3, .sc .sint64, .packed⟩ .sint64 [.num 1, .num 2],
+   .scalar 1 ⟨2, .sc .string, .explicit⟩ .string (.bs [0x68, 0x69]),
+   .unknown (.varint 9 300),
+   .scalar 2 ⟨3, .sc .sint64, .packed⟩ .sint64 (.num 5),
+   .scalar 0 ⟨1, .sc .int32, .implicit⟩ .int32 (.num 7),
+   .scalar 0 ⟨1, .sc .int32, .implicit⟩ .int32 (.num 8)]
+example : ∀ r ∈ rsEx, r.OK mdEx := by
+  intro r hr
+  simp only [rsEx, List.mem_cons, List.mem_nil_iff, or_false] at hr
+  rcases hr with rfl | rfl | rfl | rfl | rfl | rfl <;>
+    simp [WRec.OK, mdEx, findField, C01.ValidTag, maxTagValue, DecValid, isRep, two64, maxFieldLen, Rec.OK, Rec.tag, V.n, V.b]
 
 end Csproto.C06
